@@ -1,8 +1,8 @@
 use crate::traits::compression::Decompress;
-use anyhow::Result;
-use brotli::Decompressor;
+use anyhow::{bail, Result};
+use brotli::enc::StandardAlloc;
+use brotli::{BrotliDecompressStream, BrotliResult, BrotliState};
 use bytes::Bytes;
-use std::io::Read;
 
 const BUFFER_SIZE: usize = 4096;
 
@@ -15,10 +15,45 @@ pub struct BrotliDecomp;
 
 impl Decompress for BrotliDecomp {
     fn decompress(&self, input: Bytes) -> Result<Bytes> {
-        let mut buf = Vec::new();
-        let mut decoder = Decompressor::new(&input[..], BUFFER_SIZE);
-        decoder.read_to_end(&mut buf)?;
+        // A strict decoder state refuses the "large window" extension, with which a stream of
+        // a few bytes can make the decoder allocate a window of up to 1 GiB. Standard
+        // streams, including everything `BrotliComp` produces, are limited to 16 MiB.
+        let mut state = BrotliState::new_strict(
+            StandardAlloc::default(),
+            StandardAlloc::default(),
+            StandardAlloc::default(),
+        );
+        let mut output = Vec::new();
+        let mut buffer = [0u8; BUFFER_SIZE];
+        let mut available_in = input.len();
+        let mut input_offset = 0;
 
-        Ok(buf.into())
+        loop {
+            let mut available_out = buffer.len();
+            let mut output_offset = 0;
+            let mut written = 0;
+
+            let result = BrotliDecompressStream(
+                &mut available_in,
+                &mut input_offset,
+                &input[..],
+                &mut available_out,
+                &mut output_offset,
+                &mut buffer,
+                &mut written,
+                &mut state,
+            );
+
+            output.extend_from_slice(&buffer[..output_offset]);
+
+            match result {
+                BrotliResult::ResultSuccess => break,
+                BrotliResult::NeedsMoreOutput => continue,
+                BrotliResult::NeedsMoreInput => bail!("Unexpected end of Brotli stream"),
+                BrotliResult::ResultFailure => bail!("Invalid Brotli stream"),
+            }
+        }
+
+        Ok(output.into())
     }
 }
